@@ -4,6 +4,7 @@
    with an include handler that cannot serve files (the domain excludes include directives with
    arguments); [line_error s] (ParserSpec) is the verdict of one physical line. *)
 Require Import DS.Base DS.Parser DS.ParserSpec DS.ParserFacts DS.Render DS.ParserClasses DS.ParserClassesProof.
+Require DS.ParserIx DS.ParserIxProof.
 
 (* termination: the argument loop never runs out of its fuel, for any flags and any characters *)
 Theorem C08_args_terminate : forall fl l, parse_arguments_with fl l <> PErr EFuel.
@@ -82,3 +83,23 @@ Theorem C08_errors_nonvacuous :
   map class_of ex_bad = [KUnterminatedQuote; KUndocumentedEscape; KDanglingBackslash; KNameBeginsWithQuote;
                          KNameContainsBackslash; KBangAlone; KBangUnknown].
 Proof. exact (conj ex_bad_valid ex_bad_classes). Qed.
+
+(* ---- index arithmetic --------------------------------------------------------------------------------
+   DS.ParserIx is the same parser with what the Rust code has: the line as a vector, usize indices
+   moved by hand, loops with an iteration count fixed at entry, and an explicit Panic outcome for
+   an out-of-bounds [line_text[index]], for [index -= 1] at 0 and for [chars[0]] on an empty vector. *)
+
+(* the index model answers exactly what the suffix model answers, on every text *)
+Theorem C08_refine : forall t,
+  DS.ParserIx.parse_text t = DS.ParserIx.inj_tres (parse_text t).
+Proof. exact DS.ParserIxProof.parse_text_refine. Qed.
+
+(* hence no character sequence makes the index arithmetic panic *)
+Theorem C08_total : forall t, DS.ParserIx.parse_text t <> DS.ParserIx.ITPanic.
+Proof. exact DS.ParserIxProof.parse_text_no_panic. Qed.
+
+(* the token scanner alone, from any start index inside the line, for any flags *)
+Theorem C08_refine_token : forall fl line start, (start <= length line)%nat ->
+  DS.ParserIx.parse_next_value fl line start
+  = DS.ParserIxProof.inj_pnv line (parse_next_value fl (skipn start line)).
+Proof. exact DS.ParserIxProof.pnv_refine. Qed.
